@@ -781,6 +781,74 @@ func c02struct(c *an.Ctx) {
 		}
 		c.Check(okErr && sawMissing, "C02.struct", "lexComment/unclosed", f.Pos(), "an unclosed comment is a lexing error", "lexComment does not report a comment whose closing marker is missing")
 	}
+	// delimiters are byte strings of any encoding-valid content: a fragment of one (its first byte, a
+	// sub-slice) may only be searched for byte-wise.  Handing such a fragment to a function that interprets
+	// its argument as a set of runes (IndexAny, ContainsAny, Trim…, IndexRune) breaks every delimiter
+	// that starts with a multi-byte character: the lexer never finds it and accepts any broken template.
+	{
+		runeSet := map[string]bool{"strings.IndexAny": true, "strings.LastIndexAny": true, "strings.ContainsAny": true, "strings.Trim": true, "strings.TrimLeft": true, "strings.TrimRight": true, "strings.IndexRune": true, "strings.ContainsRune": true}
+		nSearch := 0
+		for _, f := range p.Units() {
+			if f.Pkg != p.Jet || f.Body == nil || !strings.HasSuffix(p.Fset.Position(f.Pos()).Filename, "/lex.go") {
+				continue
+			}
+			finfo := f.Info()
+			an.InspectOwn(f, func(n ast.Node) bool {
+				call, ok := n.(*ast.CallExpr)
+				if !ok {
+					return true
+				}
+				name := an.CalleeName(finfo, call)
+				if !strings.HasPrefix(name, "strings.Index") && !runeSet[name] {
+					return true
+				}
+				fragment := false
+				var exprs []ast.Expr
+				for _, a := range call.Args[1:] {
+					exprs = append(exprs, a)
+					// a local that holds the fragment (first := l.leftDelim[0])
+					ast.Inspect(a, func(m ast.Node) bool {
+						if id, ok := m.(*ast.Ident); ok {
+							for _, d := range an.LocalDefs(f, an.ObjOf(finfo, id)) {
+								if d != nil {
+									exprs = append(exprs, d)
+								}
+							}
+						}
+						return true
+					})
+				}
+				for _, a := range exprs {
+					ast.Inspect(a, func(m ast.Node) bool {
+						var base ast.Expr
+						switch v := m.(type) {
+						case *ast.SliceExpr:
+							base = v.X
+						case *ast.IndexExpr:
+							base = v.X
+						}
+						if base != nil {
+							if k := p.FieldKey(finfo, an.Unparen(base)); strings.HasPrefix(k, "lexer.") && (strings.Contains(k, "Delim") || strings.Contains(k, "Comment")) {
+								fragment = true
+							}
+						}
+						return true
+					})
+				}
+				if !fragment {
+					return true
+				}
+				nSearch++
+				if runeSet[name] {
+					c.Bad("C02.struct", f.Name+"/bytewise-delims", call.Pos(), nil, "%s searches for a fragment of a delimiter with %s, which reads its argument as runes: a delimiter that starts with a multi-byte character is never found, and unterminated actions, strings and surplus {{end}}s are then silently accepted as text", f.Name, name)
+				} else {
+					c.OK("C02.struct", f.Name+"/bytewise-delims", call.Pos(), "a fragment of a delimiter is searched for byte-wise (%s)", name)
+				}
+				return true
+			})
+		}
+		c.Expect("C02.struct", "searches for a fragment of a delimiter", nSearch, 2)
+	}
 	// unexpected(): the extends/import arm
 	if f := c.Fn("C02.struct", "(*Template).unexpected"); f != nil {
 		// both token kinds are singled out by some test of the function (a case list or a comparison)
@@ -894,6 +962,37 @@ func c02drain(c *an.Ctx) {
 			c.Bad("C02.drain", "(*Set).parse/no-failure-before-run", bad.Pos(), nil, "%s can raise a parse error after the template was given its lexer but before the lexer goroutine runs: Template.recover then drains a channel nobody will ever close, and Parse/GetTemplate hang forever", an.Str(bad.Fun))
 		} else {
 			c.OK("C02.drain", "(*Set).parse/no-failure-before-run", f.Pos(), "nothing can raise a parse error between startParse and the start of the lexer goroutine")
+		}
+	}
+	// parse failures travel by panic only: Template.recover is the one place that drains the lexer, so a
+	// token-consuming parser method that *returned* an error would let Set.parse leave with the lexer
+	// goroutine still blocked on its channel
+	{
+		// (paths through Set.parse belong to another template's parse, with its own lexer and recover)
+		barrier := map[*an.Fn]bool{}
+		if sp := p.Fn("(*Set).parse"); sp != nil {
+			barrier[sp] = true
+		}
+		consumers := p.FnsReachingExcept(barrier, "(*jet.lexer).nextItem")
+		n := 0
+		for _, f := range an.SortedFns(consumers) {
+			if f.Decl == nil || f.Sig == nil || f.Sig.Recv() == nil || an.TypeName(f.Sig.Recv().Type()) != "*jet.Template" || f.Pkg != p.Jet {
+				continue
+			}
+			n++
+			bad := false
+			for i := 0; i < f.Sig.Results().Len(); i++ {
+				if isErrorType(f.Sig.Results().At(i).Type()) {
+					bad = true
+				}
+			}
+			if bad {
+				c.Bad("C02.drain", f.Name+"/panics-only", f.Pos(), nil, "%s consumes tokens and reports failure through an error result: a caller that returns that error leaves Set.parse without Template.recover draining the lexer — the lexer goroutine stays blocked forever (one leaked goroutine per failed parse)", f.Name)
+			}
+		}
+		c.Expect("C02.drain", "token-consuming parser methods", n, 20)
+		if n > 0 {
+			c.OK("C02.drain", "parser/panics-only", p.Jet.Syntax[0].Pos(), "no token-consuming parser method has an error result: failures reach Template.recover, which drains the lexer (%d methods)", n)
 		}
 	}
 	if f := c.Fn("C02.drain", "(*Template).recover"); f != nil {
